@@ -1,0 +1,14 @@
+//go:build verif
+// +build verif
+
+// Contracts for package ir (comment-only; read by /verif/govc).
+
+package ir
+
+// Ghost provenance: spec.fromGetFreeRegister(r) holds exactly for register
+// numbers handed out by GetFreeRegister (a new index past every existing
+// register).  The predicate is uninterpreted; this contract is its definition.
+//@ func (*CodeBuilder).GetFreeRegister
+//@   trusted
+//@   modifies everything()
+//@   ensures spec.fromGetFreeRegister(result)
